@@ -1,11 +1,11 @@
 """C09 - compiling a series mini-language algorithm preserves its meaning."""
 from .common import Decision, run_units
-from .series_props import specs_evals, specs_corpus, specs_wiring, specs_product, specs_index, fold_canaries
+from .series_props import specs_evals, specs_corpus, specs_generated, generated_family, specs_wiring, specs_product, specs_index, fold_canaries
 
 
 def check(tier, seed):
     d = Decision("C09", tier, seed)
-    specs = specs_evals(tier) + specs_corpus(tier) + specs_wiring(tier) + specs_product(tier) + specs_index(tier)
+    specs = specs_evals(tier) + specs_corpus(tier) + specs_generated(tier, seed) + specs_wiring(tier) + specs_product(tier) + specs_index(tier)
     d.add_units(fold_canaries(run_units(specs)))
     d.assumptions += [
         "specification = equations read from pymablock/algorithms.py by an independent reader (leanalg/extract.py) that shares no code with the repository's compiler",
@@ -16,8 +16,8 @@ def check(tier, seed):
     d.not_decided += [
         "quantifier 'all generated well-founded programs in the documented grammar': the two shipped algorithms and the twenty programs of the corpus "
         "contracts/dsl_corpus.py (every grammar production in every documented context) are validated deductively, each for all flag combinations, all "
-        "index classes, symbolic block count / orders / parameter count; an arbitrary program is not (that needs a proof about the compiler itself, which is a set of "
-        "Python AST transformers outside this technique's reach); the constructs of known finding F-DSL are left out of the corpus",
+        "index classes, symbolic block count / orders / parameter count; so is a family of programs drawn by a random generator of well-founded programs (contracts/dsl_gen.py; 6 programs with a fixed seed in the quick tier, "
+        "30 from VERIF_SEED in the thorough tier); a proof for EVERY program would be a proof about the compiler itself (a set of Python AST transformers), which is outside this technique's reach",
     ]
     d.explanation = ("Translation validation of the output of the repository's own compiler on every run: each generated series_eval AST is "
                      "executed symbolically for every index class and flag valuation and its denotation is compared (free *-algebra normal form) "
@@ -30,4 +30,7 @@ def check(tier, seed):
     d.run_battery("dsl_battery.py", ["all"], "the twenty corpus programs compiled and run natively by series_computation against a direct interpreter of the extracted definitions: "
                   "2-3 blocks of sizes 1-3, 1-2 parameters, total order <= 3, four request schedules (ascending; descending, off-diagonal first; shuffled with repeats; "
                   "intermediates and declared products before outputs), offdiag given / None, both values of the flags")
+    gs, count = generated_family(tier, seed)
+    d.run_battery("dsl_battery.py", [f"gen:{gs}:{count}"], f"{count} programs produced by the random generator contracts/dsl_gen.py (seed {gs}): 1-3 series, 0-2 declared products of 2-3 factors, markers at "
+                  "any position, 1-3 clauses per series with all conditions, expression depth <= 3 incl. nested scope calls and chained divisions; same layouts and schedules as the corpus")
     return d.finish(level="proof", trusted_base=["contracts/algorithm_evals.py", "contracts/dsl_corpus.py", "leanalg/extract.py", "contracts/series_product.py", "contracts/series_index.py"])
